@@ -64,7 +64,8 @@ def _values():
     WritingMode=[sp.WritingModeType.tbrl, sp.WritingModeType.tblr, sp.WritingModeType.rltb, sp.WritingModeType.lrtb],
     Direction=[sp.DirectionType.rtl, sp.DirectionType.ltr],
     Extent=[sp.ExtentType(L(50, U.pct), L(80, U.pct)), sp.ExtentType(L(540, U.px), L(960, U.px)),
-            sp.ExtentType(L(5, U.c), L(20, U.c)), sp.ExtentType(L(40, U.rh), L(60, U.rw))],
+            sp.ExtentType(L(5, U.c), L(20, U.c)), sp.ExtentType(L(40, U.rh), L(60, U.rw)),
+            sp.ExtentType(L(150, U.pct), L(120, U.pct))],      # larger than the root container: percentage positions refer to a NEGATIVE remainder
     Origin=[sp.CoordinateType(L(10, U.pct), L(20, U.pct)), sp.CoordinateType(L(96, U.px), L(54, U.px)),
             sp.CoordinateType(L(2, U.c), L(1, U.c)), sp.CoordinateType(L(5, U.rw), L(5, U.rh))],
     Position=[sp.PositionType(L(10, U.pct), L(10, U.pct)),
@@ -164,7 +165,7 @@ def families(tier):
       [[], [st(1, 2, 3)], [st(1, 2, 4), st(1, 2, 1, 3, N)], [st(1, 1, 1)], [st(4, 1, 2)]], [[], [dict(ax=1, vi=1)]] + qd([], [[dict(ax=2, vi=3)]]),
       GEO_DEFAULT, ["Direction", "WritingMode"])
   # 8. extent / origin / position on the region x resolutions
-  ext = [0, 1, 2, 3, 4]
+  ext = [0, 1, 2, 3, 4, 5]
   fam("extent_origin_position", "chain", [("Extent", {1: ext}), ("Origin", {1: qd([0, 1, 2], ext)}), ("Position", {1: list(range(0, 8))})],
       [[], [st(1, 3, 2)]] + qd([], [[st(1, 1, 3)], [st(1, 2, 1)]]), [[], [dict(ax=1, vi=1)]] + qd([], [[dict(ax=2, vi=3)]]), qd(GEO_TWO, GEO_ALL),
       ["Extent", "Origin", "Position"])
